@@ -296,6 +296,9 @@ func (in *Interp) callSSA(caller *frame, fn *ssa.Function, args []Value, env []V
 		if in.cfg.isRepoPkg(path) {
 			in.ensureInit(fn.Pkg)
 			in.fnStats[fn]++
+			if caller != nil && in.m != nil {
+				in.m.edges[caller.fn.Name()+">"+fn.Name()]++
+			}
 		} else if !in.cfg.allowed(path) && !allowedFuncs[name] {
 			panic(inconclusive{"unmodelled function " + name + " (package " + path + " is neither intercepted nor on the interpret-from-source list)"})
 		}
